@@ -61,6 +61,14 @@ def int_pool(rg):
             pool.append(v.to_bytes(W, "big"))
     e = g.to_bytes(W, "big")
     pool += [e + b"\x00", b"\x00" + e, e[1:], e[:-1], b"", e + e]
+    # a member whose fixed-width encoding starts with 00: the shortened big-endian form must be refused
+    v = 1
+    for k in range(1, 6000):
+        v = v * g % p
+        if v < 256 ** (W - 1):
+            z = v.to_bytes(W, "big")
+            pool += [z, z[1:], b"\x00" + z, z[1:] + b"\x00"]
+            break
     # a member with a leading zero byte is still W bytes
     return pool
 
